@@ -258,11 +258,11 @@ CHECKS = {
         "the global context. The same definitions run under vm_compute against Solver.solve of /repo on random reflective, "
         "non-reciprocal, lossy, multi-link, partially exposed circuits built through the public API in both styles, with scrambled pin "
         "index maps; Coq compares every coefficient between exposed pins within 1e-9."
-        " The streams also map an external name twice (the last mapping counts) and link one pair of structures by 2-4 links in permuted pin order. Components are Models or bare Structures carrying their own matrix. Malformed netlists also give an occupied pin a second link (both building styles); placements may wire at once through Model.put(pin, (structure, pin)) with pins by name or as Pin objects.",
+        " The streams also map an external name twice (the last mapping counts) and link one pair of structures by 2-4 links in permuted pin order. Components are Models or bare Structures carrying their own matrix. Malformed netlists also give an occupied pin a second link (both building styles); placements may wire at once through Model.put(pin, (structure, pin)) with pins by name or as Pin objects. On every run harness/translate_join.py also translates the CURRENT source of the index bookkeeping around the star product (Structure.sel_output / sel_input / split_in_out / get_S_back) to Gallina and coq/templates/JoinSrcProof.v proves it equal to Solve.part / Solve.assemble / positions in ins ++ outs / Solve.keep for all matrices and pin lists (5 theorems, closed under the global context).",
    note="Trusted: Coq kernel + vm_compute; Bignums/Uint63 primitives for the executed instance only; hand-written model tied by sampled "
         "correspondence; harness. Theorems conditional on the model returning Ok (all inner systems met by the schedule invertible). "
         "The model follows the fixed code (F01: self-connections are rejected).",
-   technique="Coq proof (all netlists, all schedules) + vm_compute correspondence vs implementation", design="§5 C01"),
+   technique="Coq proof (all netlists, all schedules) + vm_compute correspondence vs implementation + source-to-Gallina translation of split_in_out / get_S_back / sel_* proved equal to the model on every run", design="§5 C01"),
  "C18": dict(
    text="Proof: props/C18.v states, for every dimension triple and every scalar field satisfying the laws of Field.v, that "
         "the model of S_matrix.add is the exact elimination of the shared ports (soundness, existence and uniqueness of the "
